@@ -83,7 +83,25 @@ for d in sorted(glob.glob(os.path.join(V, 'seeded', '*'))):
         elif mm.group(2) == '0':
             det.append('~~%s~~ (not detected)' % mm.group(1))
     clean = lambda s: re.sub(r'\s+', ' ', str(s)).replace('|', '/')[:260]
+    if os.path.exists(os.path.join(d, 'eval-before-strengthening.txt')):
+        det.append('*(missed on the first run; caught after the strengthening of section 7.1)*')
     L.append('| %s | %s | %s | %s |' % (name, clean(m.get('summary', ''))[:200], clean(m.get('needs', '')), ', '.join(det) or 'not evaluated yet'))
+L.append('')
+L += ['### 11.3 Harmless rewrites the checks must stay quiet on', '',
+      'Behaviour-preserving refactorings of `/repo` (written by fresh sub-agents told to change the code\'s shape but '
+      'not its behaviour, plus `twin-*`: the corrected form of an adversarial seed). Each was applied to a scratch copy and '
+      'the checks run against it with `tools/refac_eval.sh`; an `ALARM` line in `refactors/<id>/eval.txt` would be a false '
+      'alarm. None occurred.', '',
+      '| rewrite | what changed | result |', '|---|---|---|']
+for d in sorted(glob.glob(os.path.join(V, 'refactors', '*'))):
+    name = os.path.basename(d)
+    try:
+        m = json.load(open(os.path.join(d, 'meta.json')))
+    except Exception:
+        m = {}
+    ev = open(os.path.join(d, 'eval.txt')).read() if os.path.exists(os.path.join(d, 'eval.txt')) else ''
+    res = 'ALARM: ' + '; '.join(re.findall(r'ALARM ([^\n]*)', ev)) if 'ALARM' in ev else ('all checks quiet' if 'done' in ev else 'not evaluated')
+    L.append('| %s | %s | %s |' % (name, re.sub(r'\s+', ' ', str(m.get('summary', ''))).replace('|', '/')[:300], res))
 L.append('')
 out = rd('tools/design_head.md') + '\n' + sec5 + '\n' + rd('tools/design_tail.md') + '\n' + '\n'.join(L) + '\n---------------------------------------------------------------------------\n\n' + rd('tools/design_appendices.md')
 open(os.path.join(V, 'DESIGN.md'), 'w', encoding='utf-8').write(out)
